@@ -92,30 +92,31 @@ func (r *Raw) Collect() []*Decoded {
 // ---------- the data-transfer scenario against the raw peer ----------
 
 type RawCfg struct {
-	V6       bool
-	MTU      int
-	Active   bool // stack connects (else the peer does)
-	PeerMSS  int  // -1 = no MSS option
-	PeerWS   int  // -1 = no window-scale option
-	PeerTS   bool
-	PeerSACK bool
-	PeerISS  uint32
-	StackISS uint32
-	PeerWnd  int   // initial window advertised by the peer (unscaled field value)
-	Writes   []int // application writes on the stack
-	PeerData []int // segments the peer sends (sizes)
-	Read     string
-	Devs     string // k ack placement, w window menu, h withhold ack, l lose segment (peer pretends it never arrived), o peer data reorder/overlap/dup, t early timer, a app-first, z zero window then reopen
-	Budget   int
-	Oracles  string // s stream+wire consistency (C01), w window/MSS (C04), r recovery/cwnd (C05), m monitor (C06)
-	Cubic    bool
-	SACK     bool // stack-side SACK enabled
-	RcvBuf   int
-	SndBuf   int // send buffer of the stack endpoint (0 = default)
-	RTTms    int    // peer answers this many virtual ms after receiving (0 = immediately)
-	Silent   int    // peer stays silent for this many timeouts at the start of the data phase
-	Close    string // none | shut (stack shuts down its write side after writing)
-	PTB      int    // if >0: an ICMP "fragmentation needed" with this next-hop MTU is offered as a deviation (letter p)
+	V6         bool
+	MTU        int
+	Active     bool // stack connects (else the peer does)
+	PeerMSS    int  // -1 = no MSS option
+	PeerWS     int  // -1 = no window-scale option
+	PeerTS     bool
+	PeerSACK   bool
+	PeerISS    uint32
+	StackISS   uint32
+	PeerWnd    int   // initial window advertised by the peer (unscaled field value)
+	Writes     []int // application writes on the stack
+	PeerData   []int // segments the peer sends (sizes)
+	Read       string
+	Devs       string // k ack placement, w window menu, h withhold ack, l lose segment (peer pretends it never arrived), o peer data reorder/overlap/dup, t early timer, a app-first, z zero window then reopen
+	Budget     int
+	Oracles    string // s stream+wire consistency (C01), w window/MSS (C04), r recovery/cwnd (C05), m monitor (C06)
+	Cubic      bool
+	SACK       bool // stack-side SACK enabled
+	RcvBuf     int
+	SndBuf     int    // send buffer of the stack endpoint (0 = default)
+	WriteGapMs int    // the application lets this many virtual ms pass between two writes (0 = writes back to back)
+	RTTms      int    // peer answers this many virtual ms after receiving (0 = immediately)
+	Silent     int    // peer stays silent for this many timeouts at the start of the data phase
+	Close      string // none | shut (stack shuts down its write side after writing)
+	PTB        int    // if >0: an ICMP "fragmentation needed" with this next-hop MTU is offered as a deviation (letter p)
 }
 
 func ParseRawCfg(s string) RawCfg {
@@ -170,6 +171,8 @@ func ParseRawCfg(s string) RawCfg {
 			c.RcvBuf = atoi()
 		case "sndbuf":
 			c.SndBuf = atoi()
+		case "wgap":
+			c.WriteGapMs = atoi()
 		case "rtt":
 			c.RTTms = atoi()
 		case "silent":
@@ -257,6 +260,8 @@ type rawRun struct {
 	acksDelivered          int // ACKs delivered that acknowledged new data (segments acked counted separately)
 	segsAcked              int
 	dupAcksDelivered       int
+	lastWriteAt            time.Duration
+	wroteOnce              bool
 	recover, maxSentEnd    uint32 // RFC 6582 recover point; end of the highest data transmitted
 	recoverExit            uint32 // the same, moved up once more when a recovery episode ends (what this stack does)
 	episode                bool   // a fast-recovery episode is in progress
@@ -844,8 +849,9 @@ func (x *rawRun) appCalls() []action {
 	}
 	sk := &Sock{EP: x.ep}
 	st := tcp.VerifDump(x.ep)
-	if st.State == 4 && len(x.chunks) > 0 && sk.Writable() && !x.shut {
+	if st.State == 4 && len(x.chunks) > 0 && sk.Writable() && !x.shut && !x.writeWaits() {
 		acts = append(acts, action{name: fmt.Sprintf("S.write(%d)", len(x.chunks[0])), do: func() {
+			x.lastWriteAt, x.wroteOnce = vtime.Elapsed(), true
 			c := x.chunks[0]
 			// the bytes are part of the stream the moment Write may put them on the wire
 			before := len(x.wrote)
@@ -867,6 +873,12 @@ func (x *rawRun) appCalls() []action {
 		acts = append(acts, action{name: "S.shutdown(write)", do: func() { x.shut = true; x.ep.Shutdown(tcpip.ShutdownWrite) }})
 	}
 	return acts
+}
+
+// writeWaits: with a write gap configured the application's next write is due only after the
+// gap has passed since its previous one.
+func (x *rawRun) writeWaits() bool {
+	return x.cfg.WriteGapMs > 0 && x.wroteOnce && vtime.Elapsed() < x.lastWriteAt+time.Duration(x.cfg.WriteGapMs)*time.Millisecond
 }
 
 func (x *rawRun) doRead() {
@@ -930,6 +942,16 @@ func (x *rawRun) deliverMenu(d *Decoded, f *Frame) []action {
 	}
 	if x.dev('h') {
 		m = append(m, action{name: "peer gets " + name + ", withholds ack", cost: 1, do: process})
+	}
+	if x.dev('y') {
+		// this one ACK takes 155 ms longer than the others (it may arrive after later segments
+		// have been sent, acknowledging only part of what is then outstanding)
+		m = append(m, action{name: "peer gets " + name + ", its ack is delayed by 155ms", cost: 1, do: func() {
+			process()
+			ack := x.rcvNxt
+			x.pending = append(x.pending, pendingAck{due: vtime.Elapsed() + time.Duration(x.cfg.RTTms+155)*time.Millisecond, send: ackNow(ack, wnd), name: "late ack"})
+			sort.SliceStable(x.pending, func(i, j int) bool { return x.pending[i].due < x.pending[j].due })
+		}})
 	}
 	if x.dev('k') && n > 1 {
 		m = append(m, action{name: "peer gets " + name + ", acks up to last byte-1", cost: 1, do: func() {
@@ -1014,8 +1036,17 @@ func (x *rawRun) menu() []action {
 	apps := x.appCalls()
 	timers := vtime.Pending()
 	horizon := vtime.Elapsed() > 15*time.Minute
+	// the application's next (paced) write is an event in virtual time like a timer or a
+	// delayed answer: it happens when it is the earliest of them
+	if len(fl) == 0 && len(apps) == 0 && x.writeWaits() && len(x.chunks) > 0 && x.established {
+		wait := x.lastWriteAt + time.Duration(x.cfg.WriteGapMs)*time.Millisecond - vtime.Elapsed()
+		if (len(timers) == 0 || wait <= timers[0]) && (len(x.pending) == 0 || x.lastWriteAt+time.Duration(x.cfg.WriteGapMs)*time.Millisecond <= x.pending[0].due) {
+			return []action{{name: fmt.Sprintf("application waits %v before its next write", wait), do: func() { vtime.Advance(wait) }}}
+		}
+	}
 	// delayed peer answers that are due come first (time order)
-	if len(x.pending) > 0 && (len(timers) == 0 || x.pending[0].due <= vtime.Elapsed()+timers[0]) && len(fl) == 0 {
+	appNow := x.cfg.WriteGapMs > 0 && len(apps) > 0 && len(x.pending) > 0 && x.pending[0].due > vtime.Elapsed() // a paced write that is due now precedes an answer that is still on its way
+	if len(x.pending) > 0 && (len(timers) == 0 || x.pending[0].due <= vtime.Elapsed()+timers[0]) && len(fl) == 0 && !appNow {
 		p := x.pending[0]
 		m = append(m, action{name: fmt.Sprintf("delayed %s arrives (t=%v)", p.name, p.due), do: func() {
 			if p.due > vtime.Elapsed() {
